@@ -308,5 +308,30 @@ example : implicitRow [0, 0] = none := by decide +kernel
 example : fitnessMae [[3, -1], [-3, 1]] = some (1 / 2) := by decide +kernel
 example : fitnessMae [[1, -1], [2, -2]] = some 0 := by decide +kernel
 
+/-! ## the `required_params` guard of `ImplicitRegression.evaluate_fitness_vector` -/
+
+/-- without the option, or when SOME row uses at least `req` terms, the vector is the row-wise normalised fitness; when
+no row does, every entry is infinite -/
+theorem required_guard (req : Nat) (dots : List (List Rat)) :
+    implicitVector none dots = dots.map implicitRow ∧
+    (enoughParams req dots = true → implicitVector (some req) dots = dots.map implicitRow) ∧
+    (enoughParams req dots = false → implicitVector (some req) dots = dots.map fun _ => none) ∧
+    (enoughParams req dots = true ↔ ∃ row ∈ dots, req ≤ (row.filter (· ≠ 0)).length) := by
+  refine ⟨rfl, fun h => by simp [implicitVector, h], fun h => by simp [implicitVector, h], ?_⟩
+  simp [enoughParams]
+
+/-- hence an exact invariant keeps fitness zero at its rows as soon as one row (any row) uses enough terms -/
+theorem zero_on_invariant_required (req : Nat) (dots : List (List Rat)) (i : Nat) (dot : List Rat)
+    (hi : dots[i]? = some dot) (hs : dot.sum = 0) (hne : ¬ ∀ d ∈ dot, d = 0)
+    (henough : ∃ row ∈ dots, req ≤ (row.filter (· ≠ 0)).length) :
+    (implicitVector (some req) dots)[i]? = some (some 0) := by
+  rw [((required_guard req dots).2.1 ((required_guard req dots).2.2.2.mpr henough))]
+  rw [List.getElem?_map, hi]
+  simp [zero_on_invariant dot hs hne]
+
+/-- non-vacuity: one row with three terms lets the two-term invariant row through -/
+example : implicitVector (some 3) [[1, -1, 0], [1, 1, 2]] = [some 0, some 1] ∧
+    implicitVector (some 3) [[1, -1, 0], [1, 1, 0]] = [none, none] := by decide +kernel
+
 end C20
 end Bingo
